@@ -460,3 +460,89 @@ func IsErrorType(t types.Type) bool {
 	n, ok := t.(*types.Named)
 	return ok && n.Obj().Pkg() == nil && n.Obj().Name() == "error"
 }
+
+
+// LiteralTableLen: v is a slice of a local array literal ([]T{...} lowered to
+// "slice new [N]T"); returns N.
+func LiteralTableLen(v ssa.Value) (int64, bool) {
+	sl, ok := v.(*ssa.Slice)
+	if !ok || sl.Low != nil || sl.High != nil {
+		return 0, false
+	}
+	al, ok := sl.X.(*ssa.Alloc)
+	if !ok {
+		return 0, false
+	}
+	pt, ok := al.Type().Underlying().(*types.Pointer)
+	if !ok {
+		return 0, false
+	}
+	at, ok := pt.Elem().Underlying().(*types.Array)
+	if !ok {
+		return 0, false
+	}
+	return at.Len(), true
+}
+
+// TableRows: pth reads (a field of) the element a range loop takes from a
+// literal table - root "*&S[i]" with S a slice literal of N rows. Returns, per
+// row, the value the literal stores in that cell, and the element address
+// (identifying table and index).
+func TableRows(pth Path) (rows []ssa.Value, cell *ssa.IndexAddr, ok bool) {
+	u, isU := pth.Root.(*ssa.UnOp)
+	if !isU || u.Op != token.MUL || len(pth.Fields) > 1 {
+		return nil, nil, false
+	}
+	ia, isIA := u.X.(*ssa.IndexAddr)
+	if !isIA {
+		return nil, nil, false
+	}
+	n, isLit := LiteralTableLen(ia.X)
+	if !isLit || n < 1 {
+		return nil, nil, false
+	}
+	if _, isConst := ia.Index.(*ssa.Const); isConst {
+		return nil, nil, false
+	}
+	al := ia.X.(*ssa.Slice).X.(*ssa.Alloc)
+	rows = make([]ssa.Value, n)
+	for _, ref := range *al.Referrers() {
+		ra, isRA := ref.(*ssa.IndexAddr)
+		if !isRA {
+			continue
+		}
+		k, isK := ConstInt(ra.Index)
+		if !isK || k < 0 || k >= n {
+			continue
+		}
+		for _, r2 := range *ra.Referrers() {
+			switch x := r2.(type) {
+			case *ssa.Store:
+				if x.Addr == ssa.Value(ra) && len(pth.Fields) == 0 {
+					if rows[k] != nil {
+						return nil, nil, false
+					}
+					rows[k] = x.Val
+				}
+			case *ssa.FieldAddr:
+				if len(pth.Fields) != 1 || fieldName(x.X.Type(), x.Field) != pth.Fields[0] {
+					continue
+				}
+				for _, r3 := range *x.Referrers() {
+					if st, isSt := r3.(*ssa.Store); isSt && st.Addr == ssa.Value(x) {
+						if rows[k] != nil {
+							return nil, nil, false
+						}
+						rows[k] = st.Val
+					}
+				}
+			}
+		}
+	}
+	for _, rv := range rows {
+		if rv == nil {
+			return nil, nil, false
+		}
+	}
+	return rows, ia, true
+}
